@@ -21,7 +21,7 @@ RULE = ("(encoder level) for every setting of ET, DT and the register-addressed 
 ASSUMPTIONS = ["values whose encoding is the type's 'no value' sentinel (Integer 65535, Voltage/Current 6553.5, Long 2^32-1) are "
                "outside the readable domain: only the write part is asserted for them",
                "ES: only the register-addressed settings (eco-mode groups and switches; 011A/0239 over AA55 for v1, Modbus for v2)"]
-MUST = ["refused_writes", "refused_rmw_reads", "byte_setting_already_holds_value", "dt_phase_pairs", "encoder_values", "e2e_writes", "e2e_readbacks", "byte_settings_rmw", "negative_values", "multi_register_writes",
+MUST = ["switch_seen_in_its_group", "refused_writes", "refused_rmw_reads", "byte_setting_already_holds_value", "dt_phase_pairs", "encoder_values", "e2e_writes", "e2e_readbacks", "byte_settings_rmw", "negative_values", "multi_register_writes",
         "aa55_writes", "tcp_writes", "settings_covered"]
 EXHAUSTIVE = {"quick": False, "thorough": False}
 
@@ -213,6 +213,18 @@ def e2e_part(spec, part):
                 # arbitrary prior contents around and inside the setting's registers
                 for a in range(sn.offset - 2, sn.offset + nregs + 2):
                     sim.regs[a] = rnd.choice((rnd.randrange(65536), rnd.randrange(65536), 0xFFFF, 0x0000, 0xFF00, 0x00FF, 0x7FFF, 0x8000))
+                if sn.id_.startswith("eco_mode_") and sn.id_.endswith("_switch") and rnd.random() < 0.6:
+                    # the rest of the switch's group holds a decodable schedule (so that the group can be read back afterwards)
+                    grp_ = next((x for x in st if x.id_ == sn.id_[:-len("_switch")]), None)
+                    if grp_ is not None:
+                        base = grp_.offset
+                        sim.regs[base], sim.regs[base + 1] = 0x0000, 0x173B
+                        if grp_.size_ == 12:
+                            sim.regs[base + 2] = (sim.regs[base + 2] & 0xFF00) | rnd.choice((0x7F, 0x15, 0x00))
+                            sim.regs[base + 3], sim.regs[base + 4], sim.regs[base + 5] = rnd.randrange(0, 101), rnd.randrange(0, 101), 0
+                        else:
+                            sim.regs[base + 2] = rnd.randrange(0, 101)
+                            sim.regs[base + 3] = (sim.regs[base + 3] & 0xFF00) | rnd.choice((0x7F, 0x2A, 0x00))
                 if span == 1 and rnd.random() < 0.25 and isinstance(v, int) and -128 <= v <= 255:
                     # the setting's byte already holds the value that is going to be written (still exactly one write is due)
                     own_hi = type(sn).__name__.endswith("H")
@@ -307,6 +319,20 @@ def e2e_part(spec, part):
                     part.violate(f"C17/{fam}/readback-raises/{type(sn).__name__}", f"{tagtxt}: read_setting('{sn.id_}') after writing {v!r} raised {type(e).__name__}: {str(e)[:80]}", case)
                     continue
                 part.count("e2e_readbacks")
+                if sn.id_.startswith("eco_mode_") and sn.id_.endswith("_switch") and isinstance(v, int):
+                    # the switch of group N is the on/off byte of group N: the group itself must now show it (documented layout:
+                    # 12-byte groups at 47547/47553/47559/47565 with the switch in the 3rd register, 8-byte groups with it in the 4th)
+                    gid = sn.id_[:-len("_switch")]
+                    try:
+                        grp = await inv.read_setting(gid)
+                        shown = grp.on_off
+                    except Exception:       # noqa  (group content undecodable: nothing to compare)
+                        shown = None
+                    if shown is not None:
+                        part.count("switch_seen_in_its_group")
+                        if (shown & 0xFF) != (v & 0xFF):
+                            part.violate(f"C17/{fam}/switch-not-in-its-group",
+                                         f"{tagtxt}: wrote {sn.id_}={v!r} (register {sn.offset}), but group {gid} then shows on/off byte {shown}", case)
                 if not value_matches(sn, got, v, want):
                     part.violate(f"C17/{fam}/readback-differs/{type(sn).__name__}", f"{tagtxt}: wrote {sn.id_}={v!r}, read back {got!r}", case)
             part.see(f"e2e|{fam}|{port}|{variant}|{sn.id_}")
